@@ -30,7 +30,7 @@ def main():
                 print(f'{name}: DOES NOT COMPILE\n{b.stdout}'); bad+=1; continue
             harmless = '/harmless/' in mf
             props=m['properties']
-            r=sh(f'cd {VERIF} && ./bin/digvc check --property {",".join(props)} --repo {d} --out /root/scratch/selftest_verif_{name}')
+            r=sh(f'cd {VERIF} && ./bin/digvc check --property {",".join(props)} --repo {d} --verif {VERIF} --out /root/scratch/selftest_verif_{name}')
             viol=[l for l in r.stdout.split('\n') if l.startswith('VIOLATION')]
             if harmless:
                 ok = not viol
